@@ -155,6 +155,11 @@ func (e *Engine) Explore(s *Solver, maxPaths int, body func(c *Ctx), done func(c
 		work = work[:len(work)-1]
 		c := &Ctx{E: e, S: s, prefix: prefix, Atoms: map[string]*AtomInfo{}, Fuel: e.DefaultFuel, MaxDecide: e.DefaultMaxDecide, User: map[string]interface{}{}}
 		s.Push()
+		// every path starts from freshly initialised package-level state: what
+		// an earlier path left in a package variable must not leak into this one
+		// (dependence on earlier compilations is the subject of C17, which
+		// compares the state itself)
+		e.ResetGlobals()
 		res := c.runGuarded(body)
 		if done != nil {
 			func() {
